@@ -586,6 +586,84 @@ def runDispatch (d : Dispatch) (data : Bytes) : Except PyErr (Option Method × R
     let p := (Reader.ofBytes data).read n
     .ok ((d.versions.find? (fun kv => kv.1.val == p.1)).map (·.2), p.2)
 
+/-! ### `KdBufParser.__init__(self, threads_pids=None, pids_names=None)`
+
+  The attribute initialisers, SORTED by attribute (they do not depend on each other: every value is a display, `None`, or
+  `{} if <parameter> is None else <parameter>`); `self.versions` is the dict display of `Dispatch`. -/
+
+/-- the attributes the constructor binds (beside `versions`) -/
+inductive CtorAttr
+  | threadsPids | pidsNames | md (a : Attr) | v3Header
+  deriving DecidableEq, Repr
+
+inductive CtorVal
+  | paramOrEmpty (k : Nat)              -- `{} if <parameter k> is None else <parameter k>`: the caller's dict itself, or a new one
+  | display (v : InitVal)               -- `''` / `{}` / `{'Binaries': []}`
+  | none                                -- `None`
+  | unsupported (src : String)
+  deriving DecidableEq, Repr
+
+structure CtorDef where
+  params : Nat                          -- after `self`
+  defaults : List CtorVal               -- the defaults of the LAST parameters
+  sets : List (CtorAttr × CtorVal)      -- sorted by attribute
+  deriving DecidableEq, Repr
+
+/-- which dict object a table attribute is -/
+inductive TableRef
+  | arg (k : Nat)                       -- the caller's k-th argument itself (shared, not copied)
+  | fresh                               -- a dict made by the constructor; empty
+  deriving DecidableEq, Repr
+
+/-- a `KdBufParser` during / after construction (`none`: the attribute is not bound) -/
+structure CtorObj where
+  threadsPids : Option TableRef := none
+  pidsNames : Option TableRef := none
+  md : V3Meta
+  deriving DecidableEq, Repr
+
+/-- one initialiser; `args[k]` = "a dict (not `None`) arrives as the k-th parameter" -/
+def ctorSet (args : List Bool) (o : CtorObj) : CtorAttr × CtorVal → Except PyErr CtorObj
+  | (.threadsPids, .paramOrEmpty k) =>
+    match args[k]? with
+    | some given => .ok { o with threadsPids := some (if given then .arg k else .fresh) }
+    | Option.none => .error .unmodelled
+  | (.pidsNames, .paramOrEmpty k) =>
+    match args[k]? with
+    | some given => .ok { o with pidsNames := some (if given then .arg k else .fresh) }
+    | Option.none => .error .unmodelled
+  | (.v3Header, .none) => .ok { o with md := { o.md with header := Option.none } }
+  | (.md a, .display v) =>
+    match metaInit o.md a v with
+    | .ok m => .ok { o with md := m }
+    | .error e => .error e
+  | _ => .error .unmodelled
+
+def ctorSets (args : List Bool) : List (CtorAttr × CtorVal) → CtorObj → Except PyErr CtorObj
+  | [], o => .ok o
+  | s :: rest, o =>
+    match ctorSet args o s with
+    | .ok o' => ctorSets args rest o'
+    | .error e => .error e
+
+/-- `KdBufParser(a0, …)`: `given[k]` says whether the k-th positional argument is a dict (`false`: `None`); parameters
+    beyond `given` take their default, which must be `None`.  `m₀` is whatever the metadata attributes "held" before the
+    constructor ran (nothing: an initialiser that is missing leaves `m₀` showing). -/
+def runCtor (d : CtorDef) (given : List Bool) (m₀ : V3Meta) : Except PyErr CtorObj :=
+  if given.length > d.params then .error .typeError
+  else if d.params - given.length > d.defaults.length then .error .typeError
+  else if (d.defaults.drop (d.defaults.length - (d.params - given.length))).any (· ≠ .none) then .error .unmodelled
+  else ctorSets (given ++ List.replicate (d.params - given.length) false) d.sets { md := m₀ }
+
+/-- The parser state of the hand model (`PState`: the two tables + the metadata) the new object is, given the CONTENTS of
+    the caller's two dicts: a table attribute that IS the caller's dict has its contents, a new dict is empty. -/
+def CtorObj.toPState (o : CtorObj) (given : Tables) : Option PState :=
+  match o.threadsPids, o.pidsNames with
+  | some a, some b =>
+    some ⟨⟨match a with | .arg _ => given.threadsPids | .fresh => [],
+           match b with | .arg _ => given.pidsNames | .fresh => []⟩, o.md⟩
+  | _, _ => Option.none
+
 /-! ### the whole translated program -/
 
 structure Program where
@@ -594,6 +672,7 @@ structure Program where
   parseV2 : Stmt
   parseV3 : Stmt
   parse : Dispatch
+  init : CtorDef
   deriving DecidableEq, Repr
 
 /-- parameters of the generator bodies: calls resolved to the translated callees -/
@@ -699,6 +778,11 @@ def Stmt.hasUnsupported : Stmt → Bool
   | .forRange n b => n.hasUnsupported || b.hasUnsupported
   | _ => false
 
+def CtorDef.hasUnsupported (d : CtorDef) : Bool :=
+  d.sets.any (fun s => match s.2 with | .unsupported _ => true | _ => false) ||
+  d.defaults.any (fun v => match v with | .unsupported _ => true | _ => false)
+
+/-- (the reader code; the constructor is checked apart: `CtorDef.hasUnsupported`) -/
 def Program.hasUnsupported (p : Program) : Bool :=
   p.seekUntil.body.hasUnsupported || p.parseV2.hasUnsupported || p.parseV3.hasUnsupported ||
   p.parse.readLen.hasUnsupported ||
